@@ -166,72 +166,7 @@ func runC14(r *Report, tier string) {
 	c14CurveTable(r, keyT)
 
 	// R14.3
-	{
-		enc := P.methodOf(keyT, "MarshalCBOR")
-		if enc == nil {
-			undecidedf("anchor not found: Key.MarshalCBOR")
-		}
-		r.analysed(enc)
-		EC2 := "call<(*Key).EC2>($0)"
-		SIZE := "call<%>(res<0>(" + EC2 + "))"
-		seen := map[int64]bool{}
-		for _, mp := range P.putInstances(enc, factSet{}, 0) {
-			if mp.key != -2 && mp.key != -3 && mp.key != -4 {
-				continue
-			}
-			// padded values only: computed values, not the stored coordinate itself
-			var raw ssa.Value = mp.val
-			if mi, ok := raw.(*ssa.MakeInterface); ok {
-				raw = mi.X
-			}
-			switch raw.(type) {
-			case *ssa.Call, *ssa.Extract, *ssa.MakeSlice, *ssa.Slice:
-			default:
-				continue
-			}
-			idx := map[int64]string{-2: "1", -3: "2", -4: "3"}[mp.key]
-			V := "res<" + idx + ">(" + EC2 + ")"
-			o := r.ob("R14.3", fmt.Sprintf("Key.MarshalCBOR:pad:%d", mp.key), mp.fn, mp.instr, "padded coordinate is zeros(size-len(v)) ++ v for the coordinate of this label, under 0 < len(v) < size")
-			pi, why := P.leftPadE(mp.eng, mp.fn, raw, 0)
-			if pi == nil {
-				o.fail("value is not the left-padding of this label's coordinate: " + why)
-				seen[mp.key] = true
-				continue
-			}
-			_, okS := unify(mustPat(SIZE), pi.size, bindings{})
-			_, okV := unify(mustPat(V), pi.coord, bindings{})
-			fs := P.factsBefore(mp.instr).clone()
-			for _, f := range mp.ctx {
-				fs.add(f)
-			}
-			// facts of a constant-bound loop body about "the element" hold
-			// for this instance with the index fixed
-			if mp.eng != P.terms {
-				for _, f := range instanceFacts(P, mp.eng, mp.instr) {
-					fs.add(f)
-				}
-			}
-			gated := pi.gated == nil || fs.has(Fact{pi.gated, true})
-			if gated {
-				for _, f := range pi.guards {
-					fs.add(f)
-				}
-			}
-			miss, _ := fs.firstMissing([]factPat{fp("binop<==>(*$0.Type, 2)")}, nil)
-			if miss == "" && !P.proveGE0(tSub(tLen(pi.coord), tInt(1)), fs) {
-				miss = "0 < len(v)"
-			}
-			if miss == "" && !P.proveGE0(tSub(tSub(pi.size, tLen(pi.coord)), tInt(1)), fs) {
-				miss = "len(v) < size"
-			}
-			if !gated {
-				miss = "the helper's ok result is not tested before the value is stored"
-			}
-			o.check(okS && okV && miss == "", "value and guards match", fmt.Sprintf("size is curveSize(own curve): %v (%s); coordinate is this label's: %v (%s); missing guard: %s", okS, truncate(pi.size.String(), 80), okV, truncate(pi.coord.String(), 80), miss))
-			seen[mp.key] = true
-		}
-		r.ob("R14.3", "Key.MarshalCBOR:both-coordinates", enc, nil, "x and y both have a padding arm").check(seen[-2] && seen[-3], "x and y", fmt.Sprintf("padding arm for x: %v, for y: %v", seen[-2], seen[-3]))
-	}
+	checkKeyPadding(r, "R14.3")
 
 	// R14.4
 	{
@@ -444,6 +379,78 @@ func runC14(r *Report, tier string) {
 }
 
 // c14Reconstruct: PublicKey / PrivateKey feed X, Y, D from x, y, d.
+// checkKeyPadding (R14.3; shared with C01: a key that went through its own
+// encoder must still be the key): coordinates and d are left-padded to the
+// curve size of the key's own curve, never right-padded or cut.
+func checkKeyPadding(r *Report, rule string) {
+	P := r.P
+	keyT := P.mustNamed("Key")
+	enc := P.methodOf(keyT, "MarshalCBOR")
+	if enc == nil {
+		undecidedf("anchor not found: Key.MarshalCBOR")
+	}
+	r.analysed(enc)
+	EC2 := "call<(*Key).EC2>($0)"
+	SIZE := "call<%>(res<0>(" + EC2 + "))"
+	seen := map[int64]bool{}
+	for _, mp := range P.putInstances(enc, factSet{}, 0) {
+		if mp.key != -2 && mp.key != -3 && mp.key != -4 {
+			continue
+		}
+		// padded values only: computed values, not the stored coordinate itself
+		var raw ssa.Value = mp.val
+		if mi, ok := raw.(*ssa.MakeInterface); ok {
+			raw = mi.X
+		}
+		switch raw.(type) {
+		case *ssa.Call, *ssa.Extract, *ssa.MakeSlice, *ssa.Slice:
+		default:
+			continue
+		}
+		idx := map[int64]string{-2: "1", -3: "2", -4: "3"}[mp.key]
+		V := "res<" + idx + ">(" + EC2 + ")"
+		o := r.ob(rule, fmt.Sprintf("Key.MarshalCBOR:pad:%d", mp.key), mp.fn, mp.instr, "padded coordinate is zeros(size-len(v)) ++ v for the coordinate of this label, under 0 < len(v) < size")
+		pi, why := P.leftPadE(mp.eng, mp.fn, raw, 0)
+		if pi == nil {
+			o.fail("value is not the left-padding of this label's coordinate: " + why)
+			seen[mp.key] = true
+			continue
+		}
+		_, okS := unify(mustPat(SIZE), pi.size, bindings{})
+		_, okV := unify(mustPat(V), pi.coord, bindings{})
+		fs := P.factsBefore(mp.instr).clone()
+		for _, f := range mp.ctx {
+			fs.add(f)
+		}
+		// facts of a constant-bound loop body about "the element" hold
+		// for this instance with the index fixed
+		if mp.eng != P.terms {
+			for _, f := range instanceFacts(P, mp.eng, mp.instr) {
+				fs.add(f)
+			}
+		}
+		gated := pi.gated == nil || fs.has(Fact{pi.gated, true})
+		if gated {
+			for _, f := range pi.guards {
+				fs.add(f)
+			}
+		}
+		miss, _ := fs.firstMissing([]factPat{fp("binop<==>(*$0.Type, 2)")}, nil)
+		if miss == "" && !P.proveGE0(tSub(tLen(pi.coord), tInt(1)), fs) {
+			miss = "0 < len(v)"
+		}
+		if miss == "" && !P.proveGE0(tSub(tSub(pi.size, tLen(pi.coord)), tInt(1)), fs) {
+			miss = "len(v) < size"
+		}
+		if !gated {
+			miss = "the helper's ok result is not tested before the value is stored"
+		}
+		o.check(okS && okV && miss == "", "value and guards match", fmt.Sprintf("size is curveSize(own curve): %v (%s); coordinate is this label's: %v (%s); missing guard: %s", okS, truncate(pi.size.String(), 80), okV, truncate(pi.coord.String(), 80), miss))
+		seen[mp.key] = true
+	}
+	r.ob(rule, "Key.MarshalCBOR:both-coordinates", enc, nil, "x and y both have a padding arm").check(seen[-2] && seen[-3], "x and y", fmt.Sprintf("padding arm for x: %v, for y: %v", seen[-2], seen[-3]))
+}
+
 func c14Reconstruct(r *Report, keyT interface{ String() string }) {
 	P := r.P
 	kt := P.mustNamed("Key")
